@@ -38,6 +38,40 @@ CHECKS = {
               "truncations, token soups and raw strings; verdict, exception type and reported position are checked against the first "
               "non-viable token computed by an Earley recogniser built from blackbird.g4 at run time.", "C10",
               "grammar-based fuzzing / property-based testing (Hypothesis) with an Earley reference recogniser as oracle"),
+    "C07": _c("Generated-input search against a reference inliner: generated directory trees of include files (arbitrary mode numbers, "
+              "templates, nesting, repeated includes, relative/absolute paths, varying process working directories with decoy files) are "
+              "loaded with blackbird.load and compared with the recursive expansion computed on the model.", "C07",
+              "property-based testing (Hypothesis) against a reference inliner over generated file trees and working directories"),
+    "C09": _c("Generated-input search (round trip against the constructed object): programs assembled through the Python API from every "
+              "supported value kind, extreme array elements and option kinds are serialised, the text is checked against the grammar-derived "
+              "recogniser and re-loaded, and the result must equal the constructed program.", "C09",
+              "property-based round-trip testing (Hypothesis) of API-built programs"),
+    "C11": _c("Generated fault injection: one fault (class x slot x position drawn independently) is injected into a valid generated script "
+              "that stays grammatical; loading must raise, and for undefined/reserved names it must be BlackbirdSyntaxError naming the "
+              "identifier and its line/column.", "C11", "property-based testing (Hypothesis) with single-fault injection over a typed script model",
+              category="fault_enumeration"),
+    "C12": _c("Generated histories of load/loads calls (valid, template, failing at each stage, probe scripts over a tiny shared name pool, "
+              "include files rewritten at the same path, mutations of returned programs) run in one process; every outcome is compared "
+              "with the same call executed alone in a process forked from a pristine zygote; earlier results must stay unchanged.", "C12",
+              "model-based history generation (Hypothesis step lists) with a pristine-process differential oracle"),
+    "C13": _c("Generated histories over a pool of loaded programs and templates: dumps, template calls, to_DiGraph, match_template, attribute "
+              "reads and machine-made mutations of instances; after every step the serialisation and canonical content of every pool member "
+              "must equal their recorded values.", "C13", "model-based history generation (Hypothesis step lists) with a state invariant after every step"),
+    "C15": _c("Generated-input search against the reference model plus round trip for tdm scripts: p-arrays by name, declared data, other "
+              "variables by value, parameters/is_template, and preservation through dumps/loads; control group with a non-tdm type.", "C15",
+              "property-based testing (Hypothesis) against a reference model plus serialise/parse round trip"),
+    "C16": _c("Generated-input search against an own dependency model: node set and attributes, forward edges, acyclicity, reachability "
+              "equal to the transitive closure of shared-wire dependencies, and wire order in generated topological orders.", "C16",
+              "property-based testing (Hypothesis) against a reference reachability relation"),
+    "C17": _c("Generated-input search (inverse law): instances are produced from generated affine templates by text substitution and commuting "
+              "reorderings; match_template must return the generated values; single structural edits must raise TemplateError.", "C17",
+              "property-based testing (Hypothesis): left-inverse law with metamorphic reorderings and negative edits"),
+    "C18": _c("Generated-input search (metamorphic): every script is rendered canonically and under an independently generated layout plan "
+              "(line endings, comments, blank lines, spacing, indentation style, final newline); both must load to bit-identical content.", "C18",
+              "property-based metamorphic testing (Hypothesis) over generated layout plans"),
+    "C19": _c("Configuration differential: a generated corpus is loaded and serialised by several fresh interpreters started with different "
+              "PYTHONHASHSEED values; canonical content and dumps() text must agree for every script; differing scripts are reduced and "
+              "replayed.", "C19", "generated corpus (Hypothesis) + subprocess differential across hash seeds"),
     "C14": _c("Complete comparison of all generated artefacts (six copies of the serialised automata word by word, name tables, .tokens, "
               "listener/visitor method sets) with each other and with the token/rule order derived from blackbird.g4, plus differential "
               "testing of the shipped Python lexer and parser against the grammar-derived reference on generated strings, token "
